@@ -173,8 +173,10 @@ def sweeps(col):
 
     def run(fmt, params, cls):
         img = imggen.build(fmt, params)
-        for sched in (['fixed', 512], ['sizes', [len(img.data)]],
-                      ['fixed', 7]):
+        scheds = (['fixed', 512], ['sizes', [len(img.data)]], ['fixed', 7])
+        if len(img.data) > 200000:
+            scheds = (['fixed', 65536], ['sizes', [len(img.data)]])
+        for sched in scheds:
             out, v = outcome_of(fmt, img.data, sched)
             case = {'fmt': fmt, 'params': img.params, 'schedule': sched}
             judge(col, sub, img, out, case)
@@ -208,6 +210,16 @@ def sweeps(col):
         fo = {k: (v.decode('latin-1') if isinstance(v, bytes) else v)
               for k, v in fo.items()}
         run('vmdk', dict(footer=True, footer_over=fo), 'vmdk-footer')
+    # header / footer disagreement at large descriptor sizes (beyond the
+    # 1 MiB capture clamp): every pair of differing sector counts
+    big = (1, 20, 2047, 2048, 2049, 4096, 2 ** 32, 2 ** 64 - 1)
+    for hd in big:
+        for fd in big:
+            if hd != fd:
+                run('vmdk', dict(desc_num=hd, footer=True,
+                                 grain_data=1100 * 1024,
+                                 footer_over={'desc_num': fd}),
+                    'vmdk-footer-big')
     for ver in (-32768, -1, 0, 1, 2, 3, 256, 257, 32767):
         run('luks', dict(version=ver), 'luks-version')
     for ln in (512, 513, 4096):
